@@ -22,6 +22,7 @@ pub fn run(a: &Args) -> Option<Report> {
     gauges_linearizable(&mut rep, &mut r, a, miri);
     histograms(&mut rep, &mut r, a, miri);
     generational(&mut rep, &mut r, a, miri);
+    record_across_block_handover(&mut rep, &mut r, a, miri);
     values_and_noop(&mut rep, &mut r);
     Some(rep)
 }
@@ -389,6 +390,49 @@ fn generational(rep: &mut Report, r: &mut Rng, a: &Args, miri: bool) {
         }
         if hv.len() != exp_h {
             rep.violation("C04:histogram-samples-not-exactly-once:generational-handle", jo! {"what" => "samples recorded through a generational histogram handle (record, record_many incl. count 0) are not each present exactly once", "expected" => exp_h, "got" => hv.len()});
+        }
+    }
+}
+
+/// A record() that has to start a new storage block is held right after installing it while clones of the handle on
+/// another thread fill that block completely; the held record must still be delivered exactly once.
+fn record_across_block_handover(rep: &mut Report, r: &mut Rng, a: &Args, miri: bool) {
+    use crate::rt::{Ctx, Policy, Rule};
+    use metrics_util::storage::AtomicBucket;
+    if miri {
+        return;
+    }
+    let trials = a.budget(40, 2000);
+    for _ in 0..trials {
+        let bucket: Arc<AtomicBucket<f64>> = Arc::new(AtomicBucket::new());
+        let h = Histogram::from_arc(bucket.clone());
+        let prefill = 64 * (1 + r.usize(2)); // whole blocks: the next record starts a new one
+        for i in 0..prefill {
+            h.record(i as f64);
+        }
+        let others = 64 + r.usize(80);
+        let rules = vec![Rule::new(0, "bucket.push.after_block_cas", 1, 1, "@done", 1), Rule::new(1, "@start", 1, 0, "bucket.push.after_block_cas", 1)];
+        let ctx = Ctx::new(Policy::Gate(rules), false);
+        let h0 = h.clone();
+        let t0 = rt::spawn_role(&ctx, 0, 1, move || h0.record(4242.5));
+        let h1 = h.clone();
+        let t1 = rt::spawn_role(&ctx, 1, 2, move || {
+            for i in 0..others {
+                h1.record(10_000.0 + i as f64);
+            }
+        });
+        let _ = t0.join();
+        let _ = t1.join();
+        ctx.abort.store(true, Ordering::SeqCst);
+        let data = bucket.data();
+        let marked = data.iter().filter(|v| **v == 4242.5).count();
+        let gated = ctx.unsat.load(Ordering::SeqCst) == 0 && ctx.expired.load(Ordering::SeqCst) == 0;
+        rep.case(mix(prefill as u64, others as u64 + 5000), gated);
+        if gated {
+            rep.count("window:record-held-after-installing-a-new-block", 1);
+        }
+        if marked != 1 || data.len() != prefill + others + 1 {
+            rep.violation("C04:histogram-sample-not-delivered-exactly-once:block-handover", jo! {"what" => "a record() through a histogram handle, overtaken by a full block's worth of records from clones of the handle right after it had installed a new storage block, was not delivered exactly once", "copies_of_the_held_sample" => marked, "samples_stored" => data.len(), "samples_recorded" => prefill + others + 1, "schedule_was_forced" => gated});
         }
     }
 }
